@@ -1238,6 +1238,45 @@ def s_poly_row(rng):
     return mod.hugr
 
 
+def s_loadfn_order(rng):
+    """Function loads of functions with 0, 2 or 3 outputs (and 0..2 inputs) carrying state order edges — explicit
+    ones around the load, and the one that accompanies the function value into a nested region where it is called
+    indirectly: the order port of a LoadFunction is the port after its single value output, whatever the loaded
+    function's own arity."""
+    from hugr import ops, tys
+    from hugr.build.function import Module
+
+    mod = Module()
+    n_in, n_out = rng.choice([(0, 0), (1, 0), (0, 2), (1, 2), (2, 3), (2, 1), (1, 3)])
+    ins = [rng.choice([tys.Bool, tys.Unit, tys.USize()]) for _ in range(n_in)]
+    picks = [rng.randrange(max(n_in, 1)) for _ in range(n_out)]
+    outs = [ins[k] if ins else tys.Bool for k in picks]
+    if ins:
+        f = mod.define_function("f", ins)
+        fin = f.inputs()
+        f.set_outputs(*[fin[k] for k in picks])
+    else:
+        f = mod.declare_function("f", tys.PolyFuncType([], tys.FunctionType(ins, outs)))
+    main = mod.define_main(list(ins))
+    pre = main.add_op(ops.Custom("pre", signature=tys.FunctionType([], []), extension="verif"))
+    load = main.load_function(f)
+    post = main.add_op(ops.Custom("post", signature=tys.FunctionType([], []), extension="verif"))
+    if rng.random() < 0.7:
+        main.add_state_order(pre, load)
+    if rng.random() < 0.7:
+        main.add_state_order(load, post)
+    if rng.random() < 0.7:
+        # the function value enters a nested region (order edge load -> nested DFG added by the builder)
+        with main.add_nested(*main.inputs()) as inner:
+            call = inner.add(ops.CallIndirect()(load[0], *inner.inputs()))
+            inner.set_outputs(*[call[i] for i in range(n_out)])
+        res = inner.parent_node
+    else:
+        res = main.add(ops.CallIndirect()(load[0], *main.inputs()))
+    main.set_outputs(*[res[i] for i in range(n_out)])
+    return mod.hugr
+
+
 def s_mono_recursive(rng):
     from hugr import ops, tys
     from hugr.build.function import Module
@@ -1456,6 +1495,7 @@ SCRIPTS = {
     "tracked": s_tracked, "higher_order": s_higher_order, "consts": s_consts, "module_static": s_module_static,
     "cond_qubits": s_cond_qubits, "complex_loop": s_complex_loop, "quantum_loop": s_quantum_loop,
     "unit_sums": s_unit_sums, "insert": s_insert, "poly_row": s_poly_row,
+    "loadfn_order": s_loadfn_order,
 }
 
 
